@@ -503,6 +503,14 @@ def sampling_rules(chk, repo, clause):
                 other = steps_of(p.ret, nf.index(wave, C(1 - k)))
                 good = False if other else (None if good is not False else good)
         chk.ob(clause, 'D-flow', f.key, f"sampling '{m}' = the smallest step of operand {k}", good, det, f.loc())
+    # a number is the step itself: coarser or finer than the operands' own sampling, as requested
+    _, ps, _ = analyse(repo, 'radiometry._sampling', config={'method': S('method')})
+    num = [p for p in returns(ps) if any(pol and any(is_app(x, ('numpy.isscalar', 'isscalar')) or
+                                                          (is_app(x, 'isinstance') and 'float' in fmt(Poly.atom(x)))
+                                                          for x in nf.value_atoms(c)) for c, pol, _ in p.conds)]
+    okn = (all(p.ret == S('method') for p in num)) if num else None
+    chk.ob(clause, 'D-flow', f.key, 'a numeric sampling is the step that is used', okn,
+           '; '.join(sorted({f'returns {fmt(p.ret)[:80]}' for p in num if p.ret != S('method')})) or f'{len(num)} path(s) return the number', f.loc())
 
 
 def zernike_polar_rules(chk, repo, clause):
